@@ -24,7 +24,7 @@ TRACE = ("Trace_C20", "Trace_C20.cfg")
 ALSO = {"quick": [], "thorough": ["harness.props.hv20"]}
 REQUIRED = ["BoundsArg", "GeometryArg", "GeoJson", "Cli", "is-bounds", "not-bounds", "underscore", "spaces", "five-numbers",
             "geojson-string", "geojson-file.geojson", "geojson-file.json", "geojson-valid", "geojson-invalid",
-            "cmd-clip", "cmd-extract-points", "cmd-export-geometry", "request-good", "request-bad", "library-fails",
+            "cmd-clip", "cmd-extract-points", "cmd-export-geometry", "flag-first-row-misses", "flag-last-row-misses", "request-good", "request-bad", "library-fails",
             "flag-policy-error", "flag-policy-drop", "flag-policy-fill", "flag-format-geojson", "flag-format-shapefile",
             "flag-format-wkt", "flag-format-wkb", "flag-format-auto",
             "conv-cf1d", "conv-cf2d", "conv-shoc_simple", "conv-shoc_standard", "conv-ugrid"]
@@ -110,6 +110,10 @@ def cases(tier: str, seed: int) -> list[dict]:
             ps = [rng.choice(pts) for _ in range(4)] + [[100000, 100000]]      # the last point misses
             rng.shuffle(ps)
             cli.append({"cmd": "extract-points", "points": ps, "policy": policy, "flags": ["policy-" + policy], "request": "good"})
+        # exactly one miss, in the first row of the table (and, separately, in the last)
+        hits = GW.inner_points(w)[:3]
+        cli.append({"cmd": "extract-points", "points": [GW.far_point(w)] + hits, "policy": "error", "flags": ["policy-error", "first-row-misses"], "request": "good"})
+        cli.append({"cmd": "extract-points", "points": hits + [GW.far_point(w)], "policy": "error", "flags": ["policy-error", "last-row-misses"], "request": "good"})
         inside = [p for p in pts][:3]
         cli.append({"cmd": "extract-points", "points": inside, "policy": "fill", "flags": ["policy-fill", "custom-dim"], "dim": "station", "request": "good"})
         for fmt, ext in (("geojson", "geojson"), ("shapefile", "shp"), ("wkt", "wkt"), ("wkb", "wkb")):
@@ -340,8 +344,9 @@ def execute(case: dict) -> dict:
                  "wkb": geomops.write_wkb}[fmt](d, str(p))
                 return read_features(fmt, str(p))
             e["lib"] = outcome(lib) if e["request"] == "good" else {"err": "n/a"}
-        for k in ("geom", "points", "bounds", "text"):
+        for k in ("geom", "bounds", "text"):
             e.pop(k, None)
+        e.setdefault("points", [])
         rec["events"].append(e)
         return rec
     finally:
